@@ -1,4 +1,6 @@
-CONSTANT TolerateShadow = TRUE
+CONSTANTS
+  ModeSet = {0, 1, 2, 3}
+  TolerateShadow = TRUE
 SPECIFICATION TraceSpec
 CONSTRAINT HWM
 POSTCONDITION Post
